@@ -198,11 +198,7 @@ func checkC05(p *Program, r *Report) {
 		for _, ver := range vt.compatVer {
 			re := newResEngine(vt.ve, ver)
 			fr := &vframe{fn: un, verVals: map[ssa.Value]bool{}, stVals: map[ssa.Value]bool{un.Params[0]: true}}
-			instrsOf(un, func(_ *ssa.BasicBlock, in ssa.Instruction) {
-				if c, ok := in.(*ssa.Call); ok && c.Call.IsInvoke() && c.Call.Method.Name() == "GetVersion" {
-					fr.verVals[c] = true
-				}
-			})
+			markVersionValues(un, fr.verVals)
 			sum := re.summarize(fr, true, fields)
 			for _, f := range fields {
 				construct := fmt.Sprintf("Unmarshal(version %s) replaces st.%s", ver, f)
